@@ -9,6 +9,7 @@ set_option linter.unusedSimpArgs false
 namespace ExprModel.Refine
 open ExprModel
 open ExprModel.Spec
+open ExprModel.Spec.SML
 
 /-! ### scopes -/
 
@@ -111,17 +112,24 @@ theorem LoopPost.of_reach {α : Type} {S : α → List Val} {Extra : Scope → N
   · obtain ⟨sc', hr⟩ := hp; exact ⟨sc', h.trans hr⟩
   · exact h.trans_err hp
 
-/-- the loop lemma -/
-theorem loop_iter {α : Type} (fb : Nat → α → SM (α ⊕ Val)) (S : α → List Val) (Extra : Scope → Nat → α → Prop)
+theorem loopIdxL_succ {α : Type} (body : Nat → α → SML (α ⊕ Val)) (fuel i : Nat) (acc : α) :
+    loopIdxL body (fuel + 1) i acc = (body i acc >>= fun r => match r with
+      | .inl acc' => loopIdxL body fuel (i + 1) acc'
+      | .inr v => pure (.inr v)) := rfl
+
+/-- the loop lemma; `fbL` is the located form of the per-iteration function `fb` (C13) -/
+theorem loop_iter {α : Type} (fb : Nat → α → SM (α ⊕ Val)) (fbL : Nat → α → SML (α ⊕ Val))
+    (hfbL : ∀ i acc σ x σ1, fb i acc σ = (.ok x, σ1) → fbL i acc σ = (.ok x, σ1))
+    (S : α → List Val) (Extra : Scope → Nat → α → Prop)
     (hEx : ∀ sc j acc v, Extra sc j acc → Extra (scopeSet "i" v sc) j acc)
     (coll : Val) (N : Nat) (hN : (N : Int) < 2 ^ 63) (kexit : Nat)
     (hcode : CodeAt P k0 (loopCode l ci cs car c0 body)) (hK : LoopK P.consts ci cs car c0)
     (Hbody : ∀ (i : Nat) (acc : α) (σ : SState) (res : R (α ⊕ Val)) (σ1 : SState) (sc : Scope), i < N →
-      Base sc coll N i → Extra sc i acc → fb i acc σ = (res, σ1) → RBlame P l res →
+      Base sc coll N i → Extra sc i acc → fb i acc σ = (res, σ1) → BAt P.blame (fbL i acc) σ →
       BodyPost c P S Extra coll N i (k0 + 24 + lsize body) kexit st scs
         (vm (k0 + 24) (S acc ++ st) (sc :: scs) σ c.budget) res σ1) :
     ∀ (fuel i : Nat) (acc : α) (sc : Scope) (σ : SState) (res : R (α ⊕ Val)) (σ' : SState), i + fuel = N →
-      Base sc coll N i → Extra sc i acc → loopIdx fb fuel i acc σ = (res, σ') → RBlame P l res →
+      Base sc coll N i → Extra sc i acc → loopIdx fb fuel i acc σ = (res, σ') → BAt P.blame (loopIdxL fbL fuel i acc) σ →
       LoopPost c P S Extra coll N (k0 + 31 + lsize body) kexit st scs
         (vm (k0 + 13) (S acc ++ st) (sc :: scs) σ c.budget) res σ' := by
   -- the fixed segments
@@ -183,11 +191,8 @@ theorem loop_iter {α : Type} (fb : Nat → α → SM (α ⊕ Val)) (S : α → 
     cases hfb : fb i acc σ with
     | mk r1 σ1 =>
     rw [hfb] at hev
-    have hbp := Hbody i acc σ r1 σ1 sc hiN hb he hfb (by
-      intro e he1
-      subst he1
-      simp only [Prod.mk.injEq] at hev
-      exact hblm e hev.1.symm)
+    rw [loopIdxL_succ] at hblm
+    have hbp := Hbody i acc σ r1 σ1 sc hiN hb he hfb hblm.left
     cases r1 with
     | error e =>
       simp only [Prod.mk.injEq] at hev
@@ -214,7 +219,7 @@ theorem loop_iter {α : Type} (fb : Nat → α → SM (α ⊕ Val)) (S : α → 
           rw [this]
           exact (Reach.refl _).to_ip (by omega)
         refine LoopPost.of_reach hinc ?_
-        exact ih (i + 1) acc' _ σ1 res σ' (by omega) hb'.step (hEx _ _ _ _ he') hev hblm
+        exact ih (i + 1) acc' _ σ1 res σ' (by omega) hb'.step (hEx _ _ _ _ he') hev (hblm.right (hfbL _ _ _ _ _ hfb))
 
 end
 
